@@ -125,11 +125,14 @@ def c05(c):
             nm = "c05_%s_g%d" % (n, g)
             units.append(dict(name=nm, srcs=[D + "c05_ptrarith.cpp"], build="asan0", defs=EXC + ["CFG=vsbx_" + n, "GROUP=%d" % g]))
             runs.append(dict(unit=nm, label=nm))
+            if n == "ilp32" and (c.thorough or g in (0, 3)):
+                runs.append(dict(unit=nm, label=nm + "[4GiB]", args=["big"]))
     return dict(units=units, runs=runs, evidence=dict(
         level="exploration",
         rule="case = (operation in {+,-,+=,-=,++,--,[],&[]}, pointee type, base address, index type and wrapper (plain/tainted/tainted_volatile), "
              "index value) on the ILP32 (MASK and FINDER) and WIDE model backends; oracle = exact target p+/-n*s in 128-bit arithmetic with s "
-             "from an independent guest-size table: inside the 64 KiB region => exact address and no abort, otherwise abort; null base => abort. "
+             "from an independent guest-size table: inside the region (64 KiB; for the ILP32 configuration also a 4 GiB region so that counts and byte offsets reach "
+             "2^31..2^32) => exact address and no abort, otherwise abort; null base => abort. "
              "Index values: boundary set around element index / distance to region end / region size / 2^k and 2^k/s (products wrapping 32 and "
              "64 bits) and random; for selected pointees every n in [-(size/s)-8, size/s+8] from three bases. Distinct = fingerprint of "
              "(pointee, index type, base offset, n) plus the enumerated ranges.",
@@ -257,6 +260,8 @@ def c04(c):
         nm = "c04_" + n
         units.append(dict(name=nm, srcs=[D + "c04_ptrconv.cpp"], build="asan0", defs=EXC + ["CFG=vsbx_" + n]))
         runs += sliced(nm, 2 if not c.thorough else 4)
+        if n in ("ilp32", "ilp32f"):
+            runs.append(dict(unit=nm, label=nm + "[4GiB]", args=["big"], slice=7, nslices=8))
     return dict(units=units, runs=runs, evidence=dict(
         level="exploration",
         rule="case = (live-instance configuration, instance, pointer-carrying position, offset). 1..8 model-backend instances are created and "
@@ -267,7 +272,8 @@ def c04(c):
              "arguments as tainted/volatile/opaque, callback result, the three free_in_sandbox forms, by-value struct argument, UNSAFE_sandboxed, "
              "assign_raw_pointer); oracle = base of the owning instance + offset, guest side observed in raw memory / guest event log / backend "
              "free log; offset 0 <-> null on every path. Per round one instance gets ALL offsets 1..65535 through cell load/store and the "
-             "context path. MASK and FINDER translation styles, ILP32 / WIDE / HOST ABIs.",
+             "context path. MASK and FINDER translation styles, ILP32 / WIDE / HOST ABIs; the two ILP32 configurations "
+             "additionally with 4 GiB regions (first MiB and last page committed) and offsets around 2^31 and up to 2^32-1.",
         exhaustive=False,
         exhaustive_subspaces=["all 65535 non-null offsets of the 64 KiB region through load-cell, store-cell and UNSAFE_sandboxed, for one instance per round"],
         assumptions=["offset 0 is the null representation (the first byte of the region is never handed out as an object)"]))
